@@ -440,6 +440,10 @@ def decode_schema(e: Any, dialect: str = "3.0") -> Any:
             o["pattern"] = unparse_pattern(v)
         elif k in ("items", "not"):
             o[k] = sub(v)
+        elif k in ("example", "default"):       # author-provided values: annotations for the oracle, input for the generators
+            o[k] = decode_value(v)
+        elif k == "examples":
+            o[k] = [decode_value(x) for x in v]
         elif k == "props":
             o["properties"] = {uncps(n): sub(x) for n, x in zip(v["k"], v["v"])}
         elif k == "required":
